@@ -15,8 +15,13 @@ def tweak(world, rng):
     r = rng.random()
     if r < 0.5:
         o["dryRun"] = True
+        if o.get("flags") and o.get("interactive") and world.get("stdin") is None:
+            o["flags"] = [b"-f"]
+            o["interactive"] = False
     else:
         o["interactive"] = True
+        if o.get("flags"):
+            o["flags"] = rng.choice([[b"-f", b"-i"], [b"-fi"], [b"-f", b"--interactive"], [b"-i"], [b"-i", b"-f", b"-i"]])
         world["stdin"] = None if rng.random() < 0.15 else rng.choice(
             [b"n", b"N", b"", b"no", b" y", b"x", b"0", b"\ty", b"ny", b"y", b"Y", b"yes", b"Yn"]) + b"\n"
     world["argv"] = cmd_argv(world)
